@@ -85,9 +85,10 @@ def make_case(rng, special=None):
         return grid, drops
     if kind in ("polar", "spherical"):
         n = rng.randint(24, 48)
-        dr = rng.choice([1.0, 0.5])
+        dr = rng.choice([1.0, 0.5, 0.25, 0.4])
         grid = (PolarSymGrid if kind == "polar" else SphericalSymGrid)(n * dr, n)
-        R = rng.uniform(3.0, n / 2.5) * dr
+        # (also the smallest resolvable droplets, 3 to 3.5 cells: with fine grids the fit region has as few support points as parameters)
+        R = (rng.uniform(3.0, 3.5) if rng.random() < 0.4 else rng.uniform(3.0, n / 2.5)) * dr
         return grid, [DiffuseDroplet(np.zeros(grid.dim), R, rng.uniform(1.0, 2.0) * dr)]
     nr, nz = rng.randint(12, 18), rng.randint(28, 44)
     dr, dz = rng.choice([1.0, 0.5]), rng.choice([1.0, 0.5])
@@ -199,6 +200,46 @@ def residual_correspondence(ck: Check):
             ck.mismatch("c05-residual", f"residual evaluated by refine_droplet {want!r} vs regenerated residual {mv!r}", case)
 
 
+def periodic_cylinder_boundary(ck: Check, n: int):
+    """periodic cylindrical grids, droplet centred exactly ON (or close to) the periodic z boundary; the image is rendered here
+    with the minimal-image convention in z (the library's own rendering does not wrap z: known finding D12)"""
+    from pde import CylindricalSymGrid, ScalarField
+    from droplets.image_analysis import locate_droplets
+
+    rng = ck.rng
+    for i in range(n):
+        nr, nz = rng.randint(12, 16), rng.randint(28, 40)
+        dr = rng.choice([1.0, 0.5])
+        dz = dr * rng.choice([1.0, 1.25])
+        z0 = rng.choice([0.0, -3.0])
+        grid = CylindricalSymGrid(nr * dr, [z0, z0 + nz * dz], [nr, nz], periodic_z=True)
+        L = nz * dz
+        hmax = max(dr, dz)
+        R, w = rng.uniform(3.0, 4.0) * hmax, rng.uniform(1.0, 2.0) * hmax
+        if R + 4 * w >= nr * dr:
+            continue
+        zc = [z0, z0 + L, z0 + 0.3 * dz, z0 + L - 0.45 * dz][i % 4]
+        rr, zz = grid.cell_coords[..., 0], grid.cell_coords[..., 1]
+        dzw = (zz - zc + L / 2) % L - L / 2
+        data = 0.5 + 0.5 * np.tanh((R - np.sqrt(rr**2 + dzw**2)) / w)
+        case = {"grid": repr(grid), "droplets": [[0.0, 0.0, zc, R, w]], "kind": "periodic-cylinder-boundary"}
+        sig = {"grid": "CylindricalSymGrid", "dim": 3, "levels": "default", "threshold": "number", "periodic_z_boundary": True}
+        ck.case(("cylb", nr, nz, dr, dz, z0, zc, R, w))
+        ck.count("special.periodic_cylinder_boundary")
+        try:
+            found = locate_droplets(ScalarField(grid, data), threshold=0.5, refine=True)
+        except Exception as e:  # noqa: BLE001
+            ck.fail(f"locate_droplets(refine=True) raised {type(e).__name__}: {e}", {**sig, "check": "recovery", "error": type(e).__name__}, case)
+            continue
+        if len(found) != 1:
+            ck.fail(f"{len(found)} droplets returned for one droplet centred at z={zc} on the periodic cylinder [{z0}, {z0 + L})", {**sig, "check": "recovery_count"}, case)
+            continue
+        f = found[0]
+        dzz = abs((f.position[2] - zc + L / 2) % L - L / 2)
+        if dzz > TOL * R or abs(f.radius - R) > TOL * R or abs(f.interface_width - w) > TOL * w:
+            ck.fail(f"recovered (z={f.position[2]}, R={f.radius}, w={f.interface_width}) for (z={zc}, R={R}, w={w})", {**sig, "check": "recovery"}, case)
+
+
 def replay(case: dict):
     ck = Check("C05", "quick", 0, level=LEVEL)
     run_cases(ck, 25)
@@ -215,11 +256,12 @@ def run(ck: Check):
                       "The Lean part (Props/C05.lean, counted under obligations) proves the logic recovery depends on over regenerated definitions: the truth is a zero of the "
                       "residual for supplied and fitted levels, zero residual pins down the profile, the solver's start is feasible (C04) and within half a cell (C01).")
     ck.assumptions = ["convergence of scipy.optimize.least_squares from a half-cell-accurate start is observed, not proved",
-                      "cylindrical droplets are kept away from a periodic z boundary (known finding D12 of C03)"]
+                      "library-rendered cylindrical droplets are kept away from a periodic z boundary (known finding D12 of C03); droplets ON the boundary are rendered by the harness with the minimal-image convention"]
     ck.extra_cov["gen_keys"] = ["residual_fitted_levels", "residual_fixed_levels", "scale_field", "diffuse_smooth"]
     ck.lean = lean_stage("C05", leanchecker=not ck.quick)
     try:
         residual_correspondence(ck)
     except RuntimeError as e:
         ck.mismatch("c05-residual", f"driver unavailable: {e}", {})
+    periodic_cylinder_boundary(ck, ck.budget(4, 40))
     run_cases(ck, ck.budget(45, 1200))
